@@ -8,6 +8,11 @@ The fault engine enumerates fault operators over the bytes of the two real .nzd 
     Del(p)            delete byte p
     Sub^k             k <= 4 simultaneous substitutions inside one 6-byte framing window (field id, length, first payload bytes)
     MaxLen(j)         the two Sub^4 that turn field j's length into ff ff ff ff <next byte> (up to 32 GiB) and ff ff ff 7f (2^28-1)
+    Value(j, e, v)    value-level: decoded element e of zone field j re-encoded as adversarial value v, spliced into the payload with
+                      the field's length varint recomputed (framing stays valid): transitions := start/end-of-time marker in
+                      both encodings (00, 80 00, 01, 81 00), equal to / before the predecessor, min/max real instants and
+                      beyond, raw form; counts 0/1/n+-1; name and id indexes outside the pool; offsets +-18h, +-18h+-1s,
+                      +-(24h-1ms); tail flag toggled with / without the tail bytes; non-minimal re-encoding of every varint
     IdMap / PoolStr   structure-aware Sub^k (k<=4, lengths kept): alias entries of the id map re-pointed to another alias, to
                       themselves, to a non-id string, in 2-cycles and 3-cycles; id strings of the pool with a meaningful token
                       ("UTC", "UTC+", "GMT", "Etc/", "+", "-", ":", digits) written over their first / last characters
@@ -360,6 +365,11 @@ def apply_fault(data, fault):
         return data[:fault[1]] + bytes([fault[2]]) + data[fault[1]:]
     if k == "D":
         return data[:fault[1]] + data[fault[1] + 1:]
+    if k == "X":        # splices: ((start, end, hex of the replacement), ...) on original offsets, non-overlapping
+        b = bytearray(data)
+        for a, e, hx in sorted(fault[1], reverse=True):
+            b[a:e] = bytes.fromhex(hx)
+        return bytes(b)
     raise AssertionError(fault)
 
 
@@ -371,6 +381,8 @@ def fault_text(fault):
         return "Sub(" + ", ".join("%d:=0x%02x" % (p, v) for p, v in fault[1]) + ")"
     if k == "I":
         return "Ins(%d, 0x%02x)" % (fault[1], fault[2])
+    if k == "X":
+        return "Splice(" + ", ".join("[%d:%d):=%s" % (a, e, hx or "-") for a, e, hx in fault[1]) + ")"
     return "Del(%d)" % fault[1]
 
 
@@ -407,6 +419,8 @@ def py_text(fc, fault, ids):
         ap = "; ".join("data[%d] = 0x%02x" % (p, v) for p, v in fault[1])
     elif k == "I":
         ap = "data.insert(%d, 0x%02x)" % (fault[1], fault[2])
+    elif k == "X":
+        ap = "; ".join("data[%d:%d] = bytes.fromhex(%r)" % (a, e, hx) for a, e, hx in sorted(fault[1], reverse=True))
     else:
         ap = "del data[%d]" % fault[1]
     return _PY % {"path": fc.path, "apply": ap, "ids": "ids" if ids is None else repr(list(ids))}
@@ -786,6 +800,27 @@ def _shard_body(acc, fc, kind, item):
             else:
                 ex = run_public(acc, fc, fault, with_canaries(fc, pick))
             account(acc, ex)
+    elif kind in ("value", "vequiv"):
+        # value-level faults: item[2] = [(field index, payload start, payload end, replacement hex)]
+        for j, a, b, hx in item[2]:
+            pl, fault = value_fault_to_stream(fc, j, a, b, hx)
+            pick = pick_for(fc, acc, "payload", j, pl, False)
+            if kind == "vequiv":
+                e1 = run_seam(acc, fc, fault, j, pl, pick)
+                e2 = run_public(acc, fc, fault, pick, seam="public(equivalence)")
+                account(acc, e1)
+                account(acc, e2)
+                v1 = sorted((c, z or "", o) for c, z, o in e1.vector)
+                v2 = sorted((c, z or "", o) for c, z, o in e2.vector)
+                acc.outcome("seam-equivalence: %s" % ("same" if v1 == v2 else "DIFFERENT"))
+                if v1 != v2:
+                    acc.degrade("field seam and public seam classify the value-level fault %s on %s differently" % (fault_text(fault), fc.name))
+                continue
+            if item[3]:
+                ex = run_seam(acc, fc, fault, j, pl, pick)
+            else:
+                ex = run_public(acc, fc, fault, with_canaries(fc, pick))
+            account(acc, ex)
     elif kind == "maxlen":
         # Sub^4: the four bytes from the first length byte of a field on are set to 0xFF (a 5-byte varint whose top byte is
         # whatever follows): declared lengths of up to 32 GiB
@@ -860,9 +895,13 @@ def plan(tier, seed, seam_ok, notes):
             if seam_ok:
                 items += listed("sub", fi, pp, 250, True)
                 xv = []
-                for f in whole:                       # chosen zones: extended values everywhere, all 256 on the tail bytes
-                    for off, role in sorted(fc.roles[f.index].items()):
-                        xv.append((f.payload_start + off, "all" if role.startswith("tail-") else "E"))
+                first_tailed = next((f for f in whole if _is_tailed(fc, f)), None)
+                for f in whole:                       # chosen zones: extended values everywhere; tail bytes: role alphabets,
+                    for off, role in sorted(fc.roles[f.index].items()):      # and all 256 values on the first tailed one
+                        if role.startswith("tail-"):
+                            xv.append((f.payload_start + off, "all" if f is first_tailed else ROLE_ALPHABET.get(role, "E")))
+                        else:
+                            xv.append((f.payload_start + off, "E"))
                 whole_idx = {f.index for f in whole}
                 for f in zf:                          # every other zone with a tail: every month value of both rules
                     if f.index in whole_idx:
@@ -894,6 +933,9 @@ def plan(tier, seed, seam_ok, notes):
             for fam, per in ((idmap_faults(fc, tier), 60), (poolstr_faults(fc, tier), 40)):
                 for i in range(0, len(fam), per):
                     items.append(("multi", fi, fam[i:i + per], seam_ok))
+            vi, nv = value_plan(fc, fi, tier, whole[3:], seam_ok)
+            items += vi
+            notes.setdefault("value_level_faults", {})[fc.name] = nv
             # seam equivalence sample
             if seam_ok:
                 ep = set()
@@ -976,6 +1018,15 @@ def plan(tier, seed, seam_ok, notes):
             for fam, per in ((idmap_faults(fc, tier), 60), (poolstr_faults(fc, tier), 40)):
                 for i in range(0, len(fam), per):
                     items.append(("multi", fi, fam[i:i + per], seam_ok))
+            if seam_ok:
+                plain_v = [f for f in by_size if not _is_tailed(fc, f) and (f.end - f.payload_start) > 8]
+                tl_v = [f for f in by_size if _is_tailed(fc, f)]
+                whole_v = plain_v[:3] + tl_v[:6] + tl_v[6::max(1, len(tl_v) // 8)][:8]
+            else:
+                whole_v = []
+            vi, nv = value_plan(fc, fi, tier, whole_v, seam_ok)
+            items += vi
+            notes.setdefault("value_level_faults", {})[fc.name] = nv
             for w0 in wins:
                 nsh = 4 if w0 < 64 else 24
                 for sh in range(nsh):
@@ -991,6 +1042,126 @@ def plan(tier, seed, seam_ok, notes):
                         ep.extend(range(f.payload_start, f.payload_start + 32))
                 items += listed("equiv", fi, ep, 12)
     return items
+
+
+# ---------------------------------------------------------------------------------------------- value-level (semantic) faults
+
+INT64_MIN = -(1 << 63)
+
+
+def _raw(t):
+    return "02" + (t & ((1 << 64) - 1)).to_bytes(8, "big").hex()
+
+
+def _nonminimal(b: bytes):
+    """the same varint with one redundant continuation group (0x81 0x00 for 1, 0x80 0x00 for 0, ...)"""
+    return (b[:-1] + bytes([b[-1] | 0x80, 0x00])).hex()
+
+
+def element_variants(fc, payload, el, donor_tail):
+    """[(tag, payload start, payload end, replacement hex)] for one decoded element of a zone field: the adversarial value
+    set.  tags: marker (start/end-of-time in both encodings), nonminimal (same value, redundant varint group), value"""
+    a, b, role, v, prev = el
+    orig = payload[a:b]
+    out = []
+    npool = len(fc.pool)
+    if role == "transition":
+        out += [("marker", x) for x in ("00", "8000", "01", "8100")]
+        out += [("value", "8001"), ("value", "80808001")]                 # 128 hours after the previous; 2^21 minutes after 1800
+        vlen = 1
+        while orig[vlen - 1] & 0x80:
+            vlen += 1
+        out.append(("nonminimal", _nonminimal(orig[:vlen]) + orig[vlen:].hex()))
+        ticks = [M.MIN_INSTANT_TICKS, M.MAX_INSTANT_TICKS, M.MIN_INSTANT_TICKS - 1, M.MAX_INSTANT_TICKS + 1, INT64_MIN, (1 << 63) - 1]
+        if isinstance(prev, int):
+            ticks += [prev, prev - 1, prev - M.TICKS_PER_HOUR]            # equal to / before its predecessor
+        if isinstance(v, int):
+            ticks.append(v)                                              # the same instant in the raw form
+        out += [("value", _raw(t)) for t in ticks]
+    elif role == "count":
+        out += [("value", M.enc_varint(x).hex()) for x in (0, 1, v + 1, v - 1) if x >= 0]
+        out.append(("nonminimal", _nonminimal(orig)))
+    elif role in ("id", "name", "tail-name", "fixed-name"):
+        out += [("value", M.enc_varint(x).hex()) for x in (npool, npool + 1, M.INT_MAX, M.INT_MAX + 1)]
+        out.append(("nonminimal", _nonminimal(orig)))
+    elif role in ("offset", "tail-offset", "fixed-offset", "tail-tod"):
+        for ms in (64_800_000, -64_800_000, 64_801_000, -64_801_000, 86_399_999, -86_399_999, 1, -1000):
+            out.append(("value", M.enc_millis(ms).hex()))
+        out.append(("value", "e0"))                                       # undefined flag bits
+    elif role in ("tail-month", "tail-dom"):
+        out.append(("nonminimal", _nonminimal(orig)))
+        out += [("value", M.enc_varint(x).hex()) for x in (128, M.INT_MAX)]
+    elif role == "tail-flag":
+        if v == 1:
+            out += [("value", "00"), ("value", "02"), ("value", "ff")]    # flag cleared / unknown, tail bytes left behind
+            out.append(("cut", "00"))                                     # flag cleared and the tail bytes removed
+        else:
+            out += [("value", "01"), ("value", "02")]                     # flag set, nothing follows
+            if donor_tail:
+                out.append(("value", "01" + donor_tail.hex()))            # flag set and a well-formed tail appended
+    res = []
+    seen = set()
+    for tag, hx in out:
+        r = (tag, a, len(payload), hx) if tag == "cut" else (tag, a, b, hx)
+        if (tag != "cut" and bytes.fromhex(hx) == orig) or r[1:] in seen:
+            continue
+        seen.add(r[1:])
+        res.append(r)
+    return res
+
+
+def value_faults(fc, f, mode, donor_tail):
+    """[(field index, payload start, payload end, replacement hex)] for one zone field.
+    mode "full": every element with its whole variant set.
+    mode "mid":  count, tail flag, every tail element, the last transition and the last name / offset with their whole sets,
+                 the first transition's markers, the id's non-minimal form.
+    mode "lite": as mid without the tail elements and with two values for the last name / offset.
+    mode "markers": every transition's four marker encodings and the non-minimal form of every varint."""
+    pl = F.payload(fc.data, f)
+    try:
+        els = M.zone_field_elements(pl, fc.pool)
+    except M.Bad:
+        return []
+    tr = [e for e in els if e[2] == "transition"]
+    names = [e for e in els if e[2] == "name"]
+    offs = [e for e in els if e[2] == "offset"]
+    out = []
+    for e in els:
+        role = e[2]
+        vs = element_variants(fc, pl, e, donor_tail)
+        if mode == "full":
+            pass
+        elif mode == "markers":
+            vs = [r for r in vs if r[0] in ("marker", "nonminimal")]
+        elif role in ("count", "tail-flag", "fixed-offset", "fixed-name"):
+            pass
+        elif role.startswith("tail-"):
+            if mode == "lite":
+                vs = []
+        elif role == "transition" and e is tr[-1]:
+            pass
+        elif (role == "name" and e is names[-1]) or (role == "offset" and e is offs[-1]):
+            if mode == "lite":      # one out-of-range value and one malformed / non-minimal encoding
+                vs = [vs[0] if role == "name" else vs[2], vs[-1]]
+        elif role == "transition" and e is tr[0]:
+            vs = [r for r in vs if r[0] == "marker"]
+        elif role == "id":
+            vs = [r for r in vs if r[0] == "nonminimal"]
+        else:
+            vs = []
+        out += [(f.index,) + r[1:] for r in vs]
+    return out
+
+
+def value_fault_to_stream(fc, j, a, b, hx):
+    """payload splice -> (new payload, file-level fault with the field's length varint recomputed so the framing stays valid)"""
+    f = fc.fields[j]
+    pl = F.payload(fc.data, f)
+    new = pl[:a] + bytes.fromhex(hx) + pl[b:]
+    parts = [(f.payload_start + a, f.payload_start + b, hx)]
+    if len(new) != len(pl):
+        parts.append((f.len_start, f.payload_start, M.enc_varint(len(new)).hex()))
+    return new, ("X", tuple(sorted(parts)))
 
 
 TOKENS = ("UTC", "UTC+", "UTC-", "GMT", "Etc/", "+", "-", ":") + tuple("0123456789")
@@ -1082,6 +1253,44 @@ def poolstr_faults(fc, tier):
                     seen.add(subs)
                     out.append((subs, None))
     return out
+
+
+def value_plan(fc, fi, tier, whole, seam_ok):
+    """shards of value-level faults for one file"""
+    zf = [f for f in fc.fields if f.fid == 1]
+    donor = None
+    for f in zf:
+        pl = F.payload(fc.data, f)
+        try:
+            els = M.zone_field_elements(pl, fc.pool)
+        except M.Bad:
+            continue
+        fl = [e for e in els if e[2] == "tail-flag" and e[3] == 1]
+        if fl:
+            donor = pl[fl[0][1]:]
+            break
+    whole_idx = {f.index for f in whole}
+    faults = []
+    seen = set()
+    for f in zf:
+        modes = ["lite"] if tier == "quick" else ["mid", "markers"]
+        if f.index in whole_idx:
+            modes.append("full")
+        for m in modes:
+            for v in value_faults(fc, f, m, donor):
+                if v not in seen:
+                    seen.add(v)
+                    faults.append(v)
+    per = 150 if seam_ok else 30
+    if not seam_ok:
+        faults = faults[::8]
+    items = [("value", fi, faults[i:i + per], seam_ok) for i in range(0, len(faults), per)]
+    if seam_ok:
+        eq = []
+        for f in zf[::16]:
+            eq += [v for v in value_faults(fc, f, "lite", donor) if v[0] == f.index][:4]
+        items += [("vequiv", fi, eq[i:i + 12], True) for i in range(0, len(eq), 12)]
+    return items, len(faults)
 
 
 def _is_tailed(fc, f):
@@ -1178,7 +1387,7 @@ def replay(rec):
     if fc is None or "fault" not in case:
         return False
     fl = case["fault"]
-    fault = (fl[0], tuple(tuple(x) for x in fl[1])) if fl[0] == "S" else tuple(fl)
+    fault = (fl[0], tuple(tuple(x) for x in fl[1])) if fl[0] in ("S", "X") else tuple(fl)
     init_limits()
     acc = Acc()
     zid = case.get("id")
